@@ -4,8 +4,15 @@
    parametrised by these flags; the *selected* instances are what is
    extracted under the plain names and compared with /repo on every run.
    After applying a fix to /repo: set its flag to [true] here and replace
-   Props/Properties_C20.v by Props/Properties_C20.v.fixed (see lib/p_c20.py,
-   which reports a stale flag). *)
+   Props/Properties_C20.v by the variant for the new flag values (see
+   lib/p_c20.py, which reports a stale flag):
+     fix_ba_index  fix_ba_leak   Props/Properties_C20.v :=
+        false         false      Properties_C20.v.pinned        (held references: refuted)
+        true          false      Properties_C20.v.fixed-index   (element references proved, data() pointer across a copy refuted)
+        true          true       Properties_C20.v.fixed         (everything proved)
+   (the three older flags are [true] in all three variants). *)
 Definition fix_hex_helper : bool := true.   (* fixes/C20-hex-helper-length.patch *)
 Definition fix_ba_cmp : bool := true.       (* fixes/C20-bytearray-cmp-sign.patch *)
 Definition fix_ba_resize : bool := true.    (* fixes/C20-bytearray-resize-detach.patch *)
+Definition fix_ba_index : bool := false.    (* fixes/C20-subscript-detach.patch: operator[] (both overloads) and pop_back detach only a shared block *)
+Definition fix_ba_leak : bool := false.     (* fixes/C20-bytearray-unshare-leaked.patch: a block whose data pointer / element reference was handed out is never shared *)
